@@ -138,11 +138,6 @@ def _task(repo, name, cfgs, seed, per_item, exe, malformed, res, opts=None):
         res["focus"] = {"structs": sorted(focus_s), "methods": len(focus_m)}
     marker = bool(opts.get("marker"))
 
-    # the generated module defines exactly the structure classes the definition (with its imports) states
-    for n_, c_ in sorted(vars(mod).items()):
-        if isinstance(c_, type) and issubclass(c_, common.Structure) and c_.__module__ == mod.__name__ and n_ not in env.structs:
-            checks.append(("extraclass", "%s:%s:class" % (name, n_), len(lines), {"struct": n_}))
-
     for ci, cfg in enumerate(cfgs):
         st = mk_settings(cfg)
         cs = cfgs_str(cfg)
@@ -295,9 +290,7 @@ def _task(repo, name, cfgs, seed, per_item, exe, malformed, res, opts=None):
 
     for kind, key, i0, pl in checks:
         res["cases"] += 1
-        if kind == "extraclass":
-            diff(key, "generated module defines a structure class %s that the definition does not state" % pl["struct"], {"module": name, "struct": pl["struct"]})
-        elif kind == "noclass":
+        if kind == "noclass":
             diff(key, "generated module has no %s for protocol %s of the definition" % (" / ".join(pl["missing"]), pl["proto"]),
                  {"module": name, "protocol": pl["proto"], "method": "*", "cfg": list(pl["cfg"])})
         elif kind == "struct":
@@ -447,7 +440,10 @@ def _task(repo, name, cfgs, seed, per_item, exe, malformed, res, opts=None):
                 if r.startswith("ok ") and m_.startswith("ok "):
                     d["shrunk"]["first_differing_offset"] = F.first_diff_offset(r[3:], m_[3:])
                 if tenv is not None:
-                    d["shrunk"]["generated_code_equals_repository_readers_layout"] = (enc_model(small, tenv) == r)
+                    try:
+                        d["shrunk"]["generated_code_equals_repository_readers_layout"] = (enc_model(F.reorder(gen, SV.Gen(tenv, rng), small), tenv) == r)
+                    except Exception:
+                        pass        # the repository reader's result is not interpretable as a definition: no second opinion
                 d["what"] += " (attributes that matter: %s)" % (", ".join(need) or "none: differs on the all-zero instance")
             except Exception as e:
                 d["shrunk"] = {"error": repr(e)}
